@@ -102,7 +102,14 @@ class FormulaManager(object):
             n = FNode(content, self._next_free_id)
             self._next_free_id += 1
             self.formulae[content] = n
-            self._do_type_check(n)
+            try:
+                self._do_type_check(n)
+            except BaseException:
+                # A node that is rejected is not kept: its content can
+                # be equal to the content of a node that is accepted
+                # (a width of 8.0 and a width of 8)
+                del self.formulae[content]
+                raise
             return n
 
     def _create_symbol(self, name: str, typename: PySMTType=types.BOOL) -> FNode:
